@@ -110,6 +110,7 @@ int sim_connect(enum sim_role role, enum sim_origin origin); /* returns cid; rai
 void sim_client_send(int cid, const void *data, size_t len);  /* one chunk = one read() result at most */
 void sim_client_fin(int cid);                                 /* orderly shutdown of the client's sending side + close */
 void sim_client_reset(int cid, enum sim_reset_how how);
+void sim_client_reset_escalate(int cid); /* a reset so far only visible to read/writev is now also reported by epoll (EPOLLERR|EPOLLHUP) */
 void sim_set_window(int cid, long window); /* -1 unlimited; 0 = peer stopped reading; opening from 0 raises EPOLLOUT */
 void sim_write_cap_once(int cid, long maxbytes); /* next writev on this conn accepts at most maxbytes (>=1) */
 void sim_fail_next(const char *call, int err, int cid_or_minus1); /* one-shot failure of the next matching call: accept, fcntl, setsockopt, getsockname, writev, read, write, ftruncate, timerfd_create, timerfd_settime, epoll_ctl, epoll_create, socket, bind, listen, open, mmap */
